@@ -25,7 +25,7 @@ for path in sys.argv[1:]:
                     "representable (DESIGN.md 7): " + "; ".join(v["clauses"]))
             out[(v["property"], v["key"])] = {"status": "known", "property": "C10", "key": v["key"], "what": what, "clauses": v["clauses"]}
             continue
-        if fam not in ("L2i", "L2s", "L2i21"):
+        if fam not in ("L2i", "L2s", "L2i21", "L3i"):
             print("NOT ELIGIBLE:", v["key"], v["clauses"], file=sys.stderr)
             continue
         case = v["case"]
